@@ -44,7 +44,7 @@ func forCases(prop, tier string, seed uint64) []Case {
 	i := 0
 	for rep := 0; rep < n; rep++ {
 		for _, f := range []string{"ustar", "pax", "gnu"} {
-			for _, root := range []string{"./", "/", "top/", ".hid/", "top dir/"} {
+			for _, root := range []string{"./", "/", "top/", ".hid/", "top dir/", "/srv/data/"} {
 				// padding after the trailer as tar's blocking factor produces it (any number of zero blocks up to one tar record)
 				p := forP{Format: f, Root: root, RS: []int{1, 20, 64, 128, 512}[(rep+i)%5], Pad: []int{0, 1, 2, 3, 5, 17, 18}[(rep*3+i/3)%7], Global: f == "pax" && rep%3 == 1, Dup: rep%4 == 2}
 				pb, _ := json.Marshal(p)
@@ -62,7 +62,7 @@ func forCases(prop, tier string, seed uint64) []Case {
 	rh := newRand(subSeed(seed, prop, tier, "rooted"))
 	hcfgs := someCfgs(rh, 6)
 	for k := 0; k < nh; k++ {
-		root := []string{"./", "/", "top/", ".hid/", "top dir/", "a/b/"}[k%6]
+		root := []string{"./", "/", "top/", ".hid/", "top dir/", "a/b/", "/srv/data/"}[k%7]
 		hc := Cfg{Level: "fastest", RS: []int{1, 3, 20, 64}[k%4], WC: []string{"file", "memory"}[(k/2)%2]} // foreign members are plain: no codecs
 		_ = hcfgs
 		sp := seqP{Cfg: hc, Steps: 8 + rh.Intn(14), Exotic: k%3 == 2, Root: root, RootFmt: []string{"ustar", "pax", "gnu"}[(k/6)%3]}
@@ -621,6 +621,6 @@ func sortedKeys(t Tree) []string {
 func init() {
 	register(&Engine{Name: "foreign", Props: []string{"C17"}, Cases: forCases, Run: forRun})
 	propMeta["C17"] = PropMeta{Level: "exploration",
-		Rule:        "per case a generated tree (depth <= 4, names with spaces, non-ASCII, '_' and '%', one 124-byte component for PAX/GNU, sizes 0..40000) is written by archive/tar in USTAR, PAX or GNU format with members named under './', '/', 'top/', '.hid/' or 'top dir/' and a top-level directory entry (optionally followed by blocking-factor padding); half of the gnu archives hold an old-GNU sparse member as `tar -S` writes it (not last), a third of the pax archives start with a global extended header as `git archive` writes it, a quarter hold one member twice (`tar -r` of a changed file: the later copy is the file), a quarter hold a fifo / character / block device member (has to be listed; reading it has to return); two witness archives hold a symbolic resp. hard link member (open findings), opened through the documented composition (Initialize + NewCacheFilesystem) with record size 1, 20 or 64; every member must be listed under its directory and read back byte-identical, three spellings of up to 12 paths must agree, 5-10 entries added through the filesystem must coexist with the members, 3-6 further calls (rename of a file / of a directory, Remove, RemoveAll, rewrite - on original members and added entries alike) must each leave exactly the expected tree, all of it live and after a rebuild from the tape, and Initialize must not change the archive; plus (rooted histories) random call histories from the C02 generator (8-21 calls, unusual spellings, exotic values) against the reference model on a filesystem whose tape starts as a ustar / pax / gnu archive holding only a top-level directory named ./, /, top/, .hid/, top dir/ or a/b/ (every call outcome and the full tree compared after every call); non-trivial = at least 3 members; distinct = distinct archive bytes",
+		Rule:        "per case a generated tree (depth <= 4, names with spaces, non-ASCII, '_' and '%', one 124-byte component for PAX/GNU, sizes 0..40000) is written by archive/tar in USTAR, PAX or GNU format with members named under './', '/', 'top/', '.hid/', 'top dir/' or '/srv/data/' (absolute names as `tar -P` keeps them) and a top-level directory entry (optionally followed by blocking-factor padding); half of the gnu archives hold an old-GNU sparse member as `tar -S` writes it (not last), a third of the pax archives start with a global extended header as `git archive` writes it, a quarter hold one member twice (`tar -r` of a changed file: the later copy is the file), a quarter hold a fifo / character / block device member (has to be listed; reading it has to return); two witness archives hold a symbolic resp. hard link member (open findings), opened through the documented composition (Initialize + NewCacheFilesystem) with record size 1, 20 or 64; every member must be listed under its directory and read back byte-identical, three spellings of up to 12 paths must agree, 5-10 entries added through the filesystem must coexist with the members, 3-6 further calls (rename of a file / of a directory, Remove, RemoveAll, rewrite - on original members and added entries alike) must each leave exactly the expected tree, all of it live and after a rebuild from the tape, and Initialize must not change the archive; plus (rooted histories) random call histories from the C02 generator (8-21 calls, unusual spellings, exotic values) against the reference model on a filesystem whose tape starts as a ustar / pax / gnu archive holding only a top-level directory named ./, /, top/, .hid/, top dir/ or a/b/ (every call outcome and the full tree compared after every call); non-trivial = at least 3 members; distinct = distinct archive bytes",
 		Assumptions: []string{"the archive is written by archive/tar (sparse headers hand-patched to the old GNU layout); blocking-factor padding as GNU tar produces it is imitated by appending zero blocks"}}
 }
